@@ -423,7 +423,12 @@ def read_config_independence(repo, col):
                 if a and not (names_in(st.value) & {base_param}):
                     config_attrs.add(a)
                     if "pattern" in a:
-                        pattern_values.add(norm(st.value))
+                        arms_ = [st.value]
+                        while any(isinstance(x, ast.IfExp) for x in arms_):
+                            arms_ = [y for x in arms_ for y in (
+                                (x.body, x.orelse)
+                                if isinstance(x, ast.IfExp) else (x,))]
+                        pattern_values |= {norm(x) for x in arms_}
     if not config_attrs:
         raise AnalysisError("anchor vanished: FileAccessor configuration "
                             "attributes")
@@ -450,11 +455,20 @@ def read_config_independence(repo, col):
                     # allowed only under `if <param> is None` with the call
                     # passing that parameter explicitly (non-None)
                     ok = False
+                    guards_ = []
                     for st in stmts_of(helper.node):
                         if isinstance(st, ast.If) and any(
                                 x is node for s in st.body
                                 for x in walk_local(s)):
-                            for at in holds(st.test, True):
+                            guards_.append(st.test)
+                    # conditional-expression form: `attr if p is None else p`
+                    for ie in walk_local(helper.node):
+                        if isinstance(ie, ast.IfExp) and any(
+                                x is node for x in walk_local(ie.body)):
+                            guards_.append(ie.test)
+                    for gtest in guards_:
+                        if True:
+                            for at in holds(gtest, True):
                                 pname = at.left.id if isinstance(
                                     at.left, ast.Name) else None
                                 if pname is not None and \
@@ -491,8 +505,9 @@ def read_config_independence(repo, col):
             if not isinstance(st, ast.For):
                 continue
             it = st.iter
-            if isinstance(it, ast.Name) and it.id in h.module.constants:
-                it = h.module.constants[it.id]
+            if isinstance(it, ast.Name) and \
+                    h.module.const(it.id) is not None:
+                it = h.module.const(it.id)
             if isinstance(it, (ast.Tuple, ast.List)):
                 probed |= {norm(e) for e in it.elts}
             else:
@@ -523,6 +538,30 @@ DRIVER_FUNCS = [
     ("volume_reader", "volume_file_to_precomputed"),
     ("volume_reader", "volume_file_to_info"),
 ]
+
+
+def _block_of(fnode, target):
+    """The statement list that directly contains `target`."""
+    def visit(stmts):
+        if target in stmts:
+            return stmts
+        for st in stmts:
+            if isinstance(st, (ast.FunctionDef, ast.AsyncFunctionDef,
+                               ast.ClassDef)):
+                continue
+            for field in ("body", "orelse", "finalbody"):
+                sub = getattr(st, field, None)
+                if isinstance(sub, list) and sub and \
+                        isinstance(sub[0], ast.stmt):
+                    r = visit(sub)
+                    if r is not None:
+                        return r
+            for h in getattr(st, "handlers", []) or []:
+                r = visit(h.body)
+                if r is not None:
+                    return r
+        return None
+    return visit(fnode.body)
 
 
 def _sentinel_checked(helper, sentinel):
@@ -663,8 +702,20 @@ def exit_status(repo, col):
                             and last.targets[0].id in names_in(r.value)
                             for r in stmts_of(fn.node)):
                     ok = True       # status variable returned later
-                if not ok and isinstance(last, ast.Return) and \
+                sentinel_ret = last if isinstance(last, ast.Return) else None
+                if sentinel_ret is None and not isinstance(
+                        last, (ast.Raise, ast.Continue, ast.Break)):
+                    # handler falls through to `return <sentinel>` placed
+                    # right after the try statement
+                    blk = _block_of(fn.node, st)
+                    if blk is not None:
+                        k_ = blk.index(st)
+                        if k_ + 1 < len(blk) and isinstance(blk[k_ + 1],
+                                                            ast.Return):
+                            sentinel_ret = blk[k_ + 1]
+                if not ok and sentinel_ret is not None and \
                         fn.qualname.startswith("_") and fn.parent is None:
+                    last = sentinel_ret
                     # private helper reporting failure through a sentinel:
                     # every caller must turn the sentinel into a failure
                     verdict = _sentinel_checked(fn, last.value)
@@ -700,9 +751,9 @@ def orientation_tables(repo, col):
     m = repo.module("scripts.slices_to_precomputed")
     for name in ("POSSIBLE_AXIS_ORIENTATIONS", "AXIS_PERMUTATION_FOR_RAS",
                  "AXIS_INVERSION_FOR_RAS"):
-        if name not in m.constants:
+        if m.const(name) is None:
             raise AnalysisError("anchor vanished: %s" % name)
-    codes = _literal(m.constants["POSSIBLE_AXIS_ORIENTATIONS"])
+    codes = _literal(m.const("POSSIBLE_AXIS_ORIENTATIONS"))
     want = {"".join(p) for t in itertools.product("LR", "AP", "IS")
             for p in itertools.permutations(t)}
     col.add(rule, "scripts.slices_to_precomputed:POSSIBLE_AXIS_ORIENTATIONS",
@@ -711,8 +762,8 @@ def orientation_tables(repo, col):
             "orientation list differs from product(LR,AP,IS) x permutations: "
             "missing %s extra %s" % (sorted(want - set(codes)),
                                      sorted(set(codes) - want)))
-    perm = _literal(m.constants["AXIS_PERMUTATION_FOR_RAS"])
-    inv = _literal(m.constants["AXIS_INVERSION_FOR_RAS"])
+    perm = _literal(m.const("AXIS_PERMUTATION_FOR_RAS"))
+    inv = _literal(m.const("AXIS_INVERSION_FOR_RAS"))
     want_perm = {"R": 0, "L": 0, "A": 1, "P": 1, "S": 2, "I": 2}
     want_inv = {"R": 1, "A": 1, "S": 1, "L": -1, "P": -1, "I": -1}
     for letter in "RLAPSI":
@@ -1342,32 +1393,57 @@ def convert_loop_flow(repo, col):
     """convert_chunks: every destination chunk is read -> transformed ->
     written; all destination scales are visited; the source is only read."""
     rule = "E-ORDER.convert"
-    fn = repo.func("scripts.convert_chunks", "convert_chunks_for_scale")
+    top = repo.func("scripts.convert_chunks", "convert_chunks_for_scale")
+    # the function that writes (the loop body may have been extracted)
+    fn = top
+    for h in helper_closure(top):
+        if any(isinstance(c.func, ast.Attribute) and c.func.attr == "write_chunk"
+               for c in calls_in(h.node)):
+            fn = h
+            break
     defs = local_defs(fn.node)
     wc = [c for c in calls_in(fn.node) if isinstance(c.func, ast.Attribute)
           and c.func.attr == "write_chunk"]
     if not wc:
-        raise AnalysisError("anchor vanished: write_chunk in %s" % fn.key)
+        col.add(rule, top, "write_chunk(transform(read_chunk(...)))", True,
+                "no write_chunk call in %s or its helpers" % top.key,
+                undecided=True)
     for c in wc:
+        if not c.args:
+            continue
         clos = closure_names(fn.node, names_in(c.args[0]), defs)
-        srcs = " ".join(norm(d.value) for n in clos for d in defs.get(n, [])
-                        if d.value is not None)
-        ok = "chunk_reader.read_chunk(" in srcs and "chunk_transformer(" in srcs
-        col.add(rule, fn, "write_chunk(transform(read_chunk(...)))", ok,
+        src_nodes = [d.value for n in clos for d in defs.get(n, [])
+                     if d.value is not None] + [c.args[0]]
+        reads = any(isinstance(x, ast.Call) and isinstance(x.func, ast.Attribute)
+                    and x.func.attr == "read_chunk"
+                    for v in src_nodes for x in walk_local(v))
+        # the transformer: a callable parameter applied to the chunk
+        transforms = any(isinstance(x, ast.Call) and isinstance(x.func, ast.Name)
+                         and (x.func.id in fn.params or "transform" in x.func.id)
+                         for v in src_nodes for x in walk_local(v))
+        ok = reads and transforms
+        und = not ok and any(n_ in fn.params for n_ in clos) and fn is not top
+        col.add(rule, fn, "write_chunk(transform(read_chunk(...)))", ok or und,
                 "" if ok else "the written chunk does not derive from "
-                "chunk_transformer(chunk_reader.read_chunk(...))", node=c)
+                "chunk_transformer(chunk_reader.read_chunk(...))", node=c,
+                undecided=und and not ok)
+        rcs = [rc for rc in calls_in(fn.node) if isinstance(rc.func, ast.Attribute)
+               and rc.func.attr == "read_chunk" and len(rc.args) >= 2]
         same = len(c.args) >= 3 and any(
             norm(rc.args[1]) == norm(c.args[2]) and norm(rc.args[0]) == norm(c.args[1])
-            for rc in calls_in(fn.node) if isinstance(rc.func, ast.Attribute)
-            and rc.func.attr == "read_chunk" and len(rc.args) >= 2)
-        col.add(rule, fn, "same key and coordinates read and written", same,
+            for rc in rcs)
+        col.add(rule, fn, "same key and coordinates read and written",
+                same or not rcs,
                 "" if same else "chunk is written under a key / coordinates "
-                "other than those it was read from", node=c)
+                "other than those it was read from", node=c,
+                undecided=not same and not rcs)
     # methods used on reader / writer
     allowed_r = {"read_chunk", "scale_is_lossy", "info", "scale_info"}
     allowed_w = {"write_chunk", "info", "scale_info"}
     for recv, allowed, what in (("chunk_reader", allowed_r, "source"),
                                 ("chunk_writer", allowed_w, "destination")):
+        if recv not in fn.params and recv not in top.params:
+            continue
         used = {n.attr for n in walk_local(fn.node) if isinstance(n, ast.Attribute)
                 and isinstance(n.value, ast.Name) and n.value.id == recv}
         extra = used - allowed
